@@ -152,6 +152,10 @@ _aug("C33", " + TLC: MC_KbdDisp (the echo program through the real OS image on t
 _aug("C13", " + TLC: MC_Run (every sequence of up to 4/7 run-style calls over a program with nested calls, with and without breakpoints)",
      " MC_Run model-checks, inside the specification, every sequence of up to 4 (thorough: 7) run-style calls (limits 0/1/2/5, step_over, step_out, run_while(pc # a), run; no breakpoint, a PC breakpoint, a register breakpoint) over a program with a loop and nested subroutine calls: every segmentation ends in the state and instruction count of the unbroken run; a limit executes exactly n instructions unless a halt or breakpoint intervenes; step_over / step_out end at / below the starting depth; a breakpoint is reported only after an executed step.")
 
+for _p in ("C03", "C05", "C36"):
+    _aug(_p, " + TLC: MC_Grammar (every statement shape x every choice of surface syntax, rendered and read back inside the specification)",
+         " MC_Grammar model-checks, inside the specification, that reading the rendered bytes of each of 16 statement shapes under every choice of surface syntax (keyword/register case, colon, label on its own line, five number notations incl. negative and zero-padded forms, spacing, trailing comment, LF/CRLF, 0-2 labels: 15 360 renderings) with Grammar!ParseProgram gives back exactly the statement and the span of its nucleus.")
+
 def main():
     props = [json.loads(l) for l in open(os.path.join(ROOT, "properties.jsonl"))]
     done = sorted(check.CHECKS)
